@@ -182,9 +182,7 @@ theorem parameter_tm (st : PState) (hi : Inv s st) :
     tm (parameter s) (fun _ st' => Inv s st' ∧ rem s st' = rem s st) st := by
   unfold parameter
   tvc
-  split
-  · apply errorLine_tm; tvc; exact ⟨inv_pushErr _ hi, by first | rfl | trivial⟩
-  · exact ⟨hi, by first | rfl | trivial⟩
+  exact ⟨hi, by first | rfl | trivial⟩
 
 theorem parseFunctionParametersLoop_tm (hE : s.eof.type = .EOF ∨ s.eof.type = .EOL) : ∀ (fuel : Nat) (acc : NList) (st : PState),
     Inv s st → rem s st + 1 ≤ fuel → tm (parseFunctionParametersLoop s fuel acc) (PostT s st) st
@@ -219,8 +217,14 @@ theorem parseFunctionParameters_tm (hE : s.eof.type = .EOF ∨ s.eof.type = .EOL
     rcases h2 with ⟨rfl, _, rfl⟩ | ⟨rfl, _, hi2, hr2⟩
     · tvc
       simp only [Bool.not_true, Bool.false_eq_true, if_false]
-      tvc
-      exact ⟨inv_adv h1.1, by have := h1.2; simp at *; omega⟩
+      split
+      · tvc
+        exact ⟨inv_adv h1.1, by have := h1.2; simp at *; omega⟩
+      · tvc
+        apply errorLine_tm
+        tvc
+        have hr : rem s (advance s st1) ≤ rem s st := by have := h1.2; simp at *; omega
+        exact ⟨inv_pushErr _ (inv_adv h1.1), hr⟩
     · simp only [Bool.not_false, if_true, tm_pure]
       exact ⟨hi2, by have := h1.2; simp at *; omega⟩
 
